@@ -40,6 +40,7 @@ type stepJudge struct {
 	pub, onlyH, both []int64
 	staleH, staleU   []string // shards left stale by the damping threshold / by an unprocessed key
 	complete         bool     // every configured scheduler has a NodeShard
+	faultStale       bool     // some shard is stale because the harness injected write failures in this step
 }
 
 type pubOutcome struct {
@@ -54,7 +55,7 @@ type pubOutcome struct {
 // from the current calculation, and either the threshold rule says "no update"
 // (hysteresis) or — threshold notwithstanding — no worker item applied the current
 // calculation to it during the step (unprocessed: only possible in the op stream).
-func judgeStep(prev, pub, calc map[string][]string, processed map[string]bool) stepJudge {
+func judgeStep(prev, pub, calc map[string][]string, processed, faulted map[string]bool) stepJudge {
 	j := stepJudge{pub: encResult(pub), complete: len(pub) == len(calc)}
 	both, onlyH := map[string][]string{}, map[string][]string{}
 	for s, l := range pub {
@@ -64,7 +65,12 @@ func judgeStep(prev, pub, calc map[string][]string, processed map[string]bool) s
 		if !had || !configured || !sameList(l, old) || sameList(l, c) {
 			continue
 		}
-		if thresholdSaysNoUpdate(old, c) {
+		if faulted[s] {
+			// the harness made every write of this NodeShard fail during this step: the key
+			// was dropped; not a finding, and nothing to judge about this shard now
+			j.faultStale = true
+			both[s], onlyH[s] = c, c
+		} else if thresholdSaysNoUpdate(old, c) {
 			j.staleH = append(j.staleH, s)
 			both[s] = c
 		} else if processed != nil && !processed[s] {
@@ -93,6 +99,9 @@ func emitJudged(j stepJudge, in []int64, law func(lsel int, lin []int64, sig str
 		law(106, with(j.both), "")
 	}
 	switch {
+	case j.faultStale:
+		law(110, j.both, "")
+		law(111, with(j.both), "")
 	case len(j.staleH) == 0 && len(j.staleU) == 0:
 		law(110, j.pub, "")
 		law(111, with(j.pub), "")
@@ -189,7 +198,7 @@ func computePub(toks []int64, fallback bool) (o pubOutcome) {
 			panic(fmt.Sprintf("sync %d: %d NodeShards published for %d calculated assignments", k, len(pub), len(calc)))
 		}
 		o.pubs = append(o.pubs, encResult(pub))
-		o.judge = append(o.judge, judgeStep(prev, pub, calc, nil))
+		o.judge = append(o.judge, judgeStep(prev, pub, calc, nil, nil))
 		prev = pub
 	}
 	return o
